@@ -285,7 +285,43 @@ def make_datasets(rng: random.Random, n: int = 5) -> List[Seq]:
     return out
 
 
+class DRec:
+    """A dictionary literal of a query: func_adl reads it as a record - an attribute is a key (also `values`, `items`, ...:
+    the methods of Python's dict are not part of the query language), a subscript is a key."""
+
+    def __init__(self, d):
+        object.__setattr__(self, "_d", dict(d))
+
+    def __getattribute__(self, name):
+        if name.startswith("_"):
+            return object.__getattribute__(self, name)
+        d = object.__getattribute__(self, "_d")
+        if name in d:
+            return d[name]
+        raise AttributeError(name)
+
+    def __getitem__(self, k):
+        return self._d[k]
+
+    def __eq__(self, o):
+        return isinstance(o, DRec) and o._d == self._d
+
+    def __hash__(self):
+        return hash(tuple(self._d))
+
+    def __bool__(self):
+        return bool(self._d)
+
+
+class _WrapDicts(ast.NodeTransformer):
+    def visit_Dict(self, node):
+        self.generic_visit(node)
+        return ast.Call(func=ast.Name(id="_drec", ctx=ast.Load()), args=[node], keywords=[])
+
+
 def canon(v: Any) -> Any:
+    if isinstance(v, DRec):
+        return ("dict", tuple((k, canon(x)) for k, x in v._d.items()))
     if isinstance(v, bool):
         return ("b", v)
     if isinstance(v, int):
@@ -305,11 +341,13 @@ def pyeval(e: ast.AST, ds: Seq, extra: Optional[Dict[str, Any]] = None):
     """Evaluate a query with CPython (scoping, closures, keyword binding are Python's own).
     -> ("ok", canonical value) | ("err", exception class name)"""
     try:
-        code = compile(ast.fix_missing_locations(ast.Expression(body=copy.deepcopy(e))), "<query>", "eval")
+        compile(ast.fix_missing_locations(ast.Expression(body=copy.deepcopy(e))), "<query>", "eval")
+        code = compile(ast.fix_missing_locations(ast.Expression(body=_WrapDicts().visit(copy.deepcopy(e)))), "<query>", "eval")
     except Exception as ex:  # noqa
         return "uncompilable", type(ex).__name__
     env = _ops_env()
     env["ds"] = ds
+    env["_drec"] = DRec
     if extra:
         env.update(extra)
     try:
